@@ -428,6 +428,7 @@ def run(ctx):  # noqa: C901, PLR0912, PLR0915
                                                       'sdc11073.provider.porttypes', 'sdc11073.provider.providerimpl',
                                                       'sdc11073.consumer.operations', 'sdc11073.consumer.serviceclients',
                                                       'sdc11073.roles'])
+    common.no_mutation_while_iterating(ctx, 'C09.R6', ['sdc11073.provider.sco', 'sdc11073.provider.operations', 'sdc11073.consumer.operations'], floor=1)
     # ------------------------------------------------------------------ R6
     shared = ('_transactions', '_last_operation_invoked_reports')
     n_acc = 0
